@@ -672,4 +672,731 @@ theorem path_greedy (sub : Bool) (c : UInt8) (x : Bytes) (hc : c = 0 ∨ c = 58)
       | some z => exact ih hrest _ ex (ha.drop _) (hb.drop _)
 
 
+/-! ## Part 4 -/
+theorem dropWhile_head_not {a : Bytes} {c : UInt8} {t : Bytes} (h : a.dropWhile isDigit = c :: t) :
+    isDigit c = false := by
+  have hne : a.dropWhile isDigit ≠ [] := by simp [h]
+  have := List.head_dropWhile_not isDigit hne
+  simpa [h] using this
+
+theorem takeWhile_run {idx a : Bytes} (hd : ∀ c ∈ idx, isDigit c = true)
+    (hm : ∀ c t, a = c :: t → isDigit c = false) :
+    (idx ++ a).takeWhile isDigit = idx ∧ (idx ++ a).dropWhile isDigit = a := by
+  induction idx with
+  | nil =>
+    cases a with
+    | nil => simp
+    | cons c t => have := hm c t rfl; simp [this]
+  | cons d r ih =>
+    have h1 := hd d List.mem_cons_self
+    have := ih (fun x hx => hd x (List.mem_cons_of_mem _ hx))
+    simp [h1, this]
+
+/-- **soundness of `greedy`**: whatever it accepts is spelled as the statement says -/
+theorem greedy_sound (sub : Bool) : ∀ (segs : List Seg) (a t : Bytes), greedy segs sub a = some t →
+    ∃ rest, SpellsAll segs a rest ∧ (if sub then rest = 47 :: t else rest = [] ∧ t = []) := by
+  intro segs
+  induction segs with
+  | nil =>
+    intro a t h
+    cases sub with
+    | false =>
+      simp only [greedy] at h
+      split at h
+      · next ha => subst ha; simp only [Option.some.injEq] at h; subst h; exact ⟨[], .nil [], by simp⟩
+      · simp at h
+    | true =>
+      simp only [greedy] at h
+      split at h
+      · simp at h
+      · next d t' =>
+        split at h
+        · next hd => subst hd; simp only [Option.some.injEq] at h; subst h; exact ⟨_, .nil _, by simp⟩
+        · simp at h
+  | cons s r ih =>
+    intro a t h
+    cases s with
+    | lit s =>
+      simp only [greedy] at h
+      split at h
+      · next hp =>
+        obtain ⟨rest, h1, h2⟩ := ih _ _ h
+        have : s ++ a.drop s.length = a := List.prefix_iff_eq_append.mp (List.isPrefixOf_iff_prefix.mp hp)
+        refine ⟨rest, ?_, h2⟩
+        rw [← this]
+        exact .lit s h1
+      · simp at h
+    | enum ds =>
+      simp only [greedy] at h
+      split at h
+      · next hp =>
+        obtain ⟨rest, h1, h2⟩ := ih _ _ h
+        refine ⟨rest, ?_, h2⟩
+        have : a.takeWhile isDigit ++ a.dropWhile isDigit = a := List.takeWhile_append_dropWhile
+        rw [← this]
+        exact .enum ds _ hp.1 (fun c hc => mem_takeWhile_digit hc)
+          (fun c t hct => dropWhile_head_not hct) hp.2 h1
+      · simp at h
+    | alts as =>
+      simp only [greedy] at h
+      split at h
+      · next x hf =>
+        obtain ⟨rest, h1, h2⟩ := ih _ _ h
+        have hp : x.isPrefixOf a = true := by simpa using List.find?_some hf
+        have : x ++ a.drop x.length = a := List.prefix_iff_eq_append.mp (List.isPrefixOf_iff_prefix.mp hp)
+        refine ⟨rest, ?_, h2⟩
+        rw [← this]
+        exact .alts as x (List.mem_of_find?_eq_some hf) h1
+      · simp at h
+
+theorem prefixFree_iff {as : List Bytes} (h : (Seg.alts as).prefixFree = true) :
+    ∀ a ∈ as, ∀ b ∈ as, a <+: b → a = b := by
+  intro a ha b hb hab
+  simp only [Seg.prefixFree, List.all_eq_true, Bool.or_eq_true, Bool.not_eq_eq_eq_not, Bool.not_true,
+    beq_iff_eq] at h
+  rcases h a ha b hb with h | h
+  · have := List.isPrefixOf_iff_prefix.mpr hab
+    simp [this] at h
+  · exact h
+
+theorem find_prefixFree {as : List Bytes} (h : (Seg.alts as).prefixFree = true) {x w : Bytes}
+    (hx : x ∈ as) (hxw : x <+: w) : as.find? (·.isPrefixOf w) = some x := by
+  cases hf : as.find? (·.isPrefixOf w) with
+  | none =>
+    have := List.find?_eq_none.mp hf x hx
+    exact absurd (List.isPrefixOf_iff_prefix.mpr hxw) this
+  | some y =>
+    have hy : y ∈ as := List.mem_of_find?_eq_some hf
+    have hyw : y <+: w := List.isPrefixOf_iff_prefix.mp (by simpa using List.find?_some hf)
+    rcases List.prefix_or_prefix_of_prefix hyw hxw with h1 | h1
+    · rw [prefixFree_iff h y hy x hx h1]
+    · rw [prefixFree_iff h x hx y hy h1]
+
+/-- **completeness of `greedy`** on prefix-free groups, in the form that also serves
+    `enum_bound_strict`: spelling a prefix of the segment list moves `greedy` on. -/
+theorem greedy_complete (sub : Bool) (post : List Seg) {pre : List Seg} {a x : Bytes}
+    (h : SpellsAll pre a x) (hpf : segsPrefixFree pre = true) :
+    greedy (pre ++ post) sub a = greedy post sub x := by
+  induction h with
+  | nil r => rfl
+  | @lit segs a' r s _ ih =>
+    simp only [segsPrefixFree, List.all_cons, Bool.and_eq_true] at hpf
+    have hp : s.isPrefixOf (s ++ a') = true := List.isPrefixOf_iff_prefix.mpr (List.prefix_append _ _)
+    simp only [List.cons_append, greedy, hp, ↓reduceIte, List.drop_left]
+    exact ih hpf.2
+  | @enum segs a' r ds idx hne hd hm hlt _ ih =>
+    simp only [segsPrefixFree, List.all_cons, Bool.and_eq_true] at hpf
+    obtain ⟨h1, h2⟩ := takeWhile_run hd hm
+    simp only [List.cons_append, greedy, h1, h2, ne_eq, hne, not_false_eq_true, hlt, and_self, ↓reduceIte]
+    exact ih hpf.2
+  | @alts segs a' r as y hy _ ih =>
+    simp only [segsPrefixFree, List.all_cons, Bool.and_eq_true] at hpf
+    have := find_prefixFree hpf.1 hy (List.prefix_append y a')
+    simp only [List.cons_append, greedy, this, List.drop_left]
+    exact ih hpf.2
+
+
+/-! ## Part 5 -/
+/-- What the type matcher computes: every alternative but the last must equal the type
+    string; the last one matches if it is a prefix of it (an empty last alternative
+    only matches the empty type string). -/
+def typesCode : List Bytes → Bytes → Bool
+  | [], _ => true
+  | [a], tags => if a = [] then decide (tags = []) else a.isPrefixOf tags
+  | a :: b :: r, tags => a == tags || typesCode (b :: r) tags
+
+/-- the start of `rtosc_match_args` behind the ':' (first call and every retry) -/
+def argsStart (args0 r : Bytes) : Option Bool :=
+  match r with
+  | [] => none
+  | e :: _ =>
+    if e ≠ 0 then argsGo args0 r args0 true
+    else match args0 with
+      | [] => none
+      | x :: _ => argsGo args0 r args0 (x = 0)
+
+theorem args_colon (r a0 : Bytes) : args (58 :: r) a0 = argsStart a0 r := by
+  simp only [args, argsStart, ne_eq, not_true_eq_false, ↓reduceIte]
+  rfl
+
+theorem tagChar_ne {c : UInt8} (h : tagChar c = true) : c ≠ 0 ∧ c ≠ 58 := by
+  simpa [tagChar] using h
+
+theorem argsGo_colon (args0 r a : Bytes) (am : Bool) :
+    argsGo args0 (58 :: r) a am =
+      if am then
+        match a with
+        | [] => none
+        | x :: _ => if x = 0 then some true else argsStart args0 r
+      else argsStart args0 r := by
+  simp only [argsGo, show ¬((58:UInt8) = 0) by decide, ↓reduceIte, argsStart]
+  rfl
+
+/-- the `while` loop over one type alternative -/
+theorem argsGo_alt (args0 q : Bytes) (a : Bytes) (ha : ∀ c ∈ a, tagChar c = true) :
+    ∀ (cur : Bytes) (am : Bool),
+    argsGo args0 (a ++ q) cur am =
+      if a.length ≤ cur.length then argsGo args0 q (cur.drop a.length) (am && a.isPrefixOf cur)
+      else none := by
+  induction a with
+  | nil => intro cur am; simp
+  | cons c a' ih =>
+    intro cur am
+    obtain ⟨c0, c58⟩ := tagChar_ne (ha c List.mem_cons_self)
+    have ha' : ∀ c ∈ a', tagChar c = true := fun x hx => ha x (List.mem_cons_of_mem _ hx)
+    cases cur with
+    | nil => simp [argsGo, c0, c58]
+    | cons x cur' =>
+      simp only [List.cons_append, argsGo, c0, ↓reduceIte, c58, ih ha', List.length_cons,
+        Nat.add_le_add_iff_right, List.drop_succ_cons, List.isPrefixOf, Bool.and_assoc]
+
+theorem isPrefixOf_nulfree (a tags rest : Bytes) (ha : ∀ c ∈ a, tagChar c = true) :
+    a.isPrefixOf (tags ++ 0 :: rest) = a.isPrefixOf tags := by
+  induction a generalizing tags with
+  | nil => simp
+  | cons c a' ih =>
+    obtain ⟨c0, _⟩ := tagChar_ne (ha c List.mem_cons_self)
+    cases tags with
+    | nil => simp [List.isPrefixOf, c0]
+    | cons d t =>
+      simp only [List.cons_append, List.isPrefixOf]
+      rw [ih _ (fun x hx => ha x (List.mem_cons_of_mem _ hx))]
+
+/-- after a matching alternative `arg_str` stands on the NUL exactly when the alternative
+    is the whole type string -/
+theorem drop_head_zero (a tags rest : Bytes) (htags : NulFree tags) (hp : a <+: tags) :
+    ∃ x t, (tags ++ 0 :: rest).drop a.length = x :: t ∧ (x = 0 ↔ a = tags) := by
+  obtain ⟨s, rfl⟩ := hp
+  cases s with
+  | nil => exact ⟨0, rest, by simp, by simp⟩
+  | cons d s' =>
+    refine ⟨d, s' ++ 0 :: rest, by simp, ?_⟩
+    have : d ≠ 0 := htags d (by simp)
+    simp [this]
+
+/-- **the type matcher on rendered alternatives**: either the documented value, or a
+    read past the buffer — and the latter only if some alternative is longer than what
+    is left of the buffer behind `arg_str`. -/
+theorem argsStart_types (tags rest : Bytes) (htags : NulFree tags) :
+    ∀ (ts : List Bytes), ts ≠ [] → (∀ a ∈ ts, ∀ c ∈ a, tagChar c = true) →
+    (match ts with
+     | [] => none
+     | a :: ts' => argsStart (tags ++ 0 :: rest) (a ++ (renderTypeAlts ts' ++ [0])))
+      = some (typesCode ts tags) ∨
+    ((match ts with
+      | [] => none
+      | a :: ts' => argsStart (tags ++ 0 :: rest) (a ++ (renderTypeAlts ts' ++ [0]))) = none ∧
+      ∃ a ∈ ts, (tags ++ 0 :: rest).length < a.length) := by
+  intro ts
+  induction ts with
+  | nil => intro h; exact absurd rfl h
+  | cons a ts' ih =>
+    intro _ hts
+    have ha := hts a List.mem_cons_self
+    have hpre := isPrefixOf_nulfree a tags rest ha
+    cases ts' with
+    | nil =>
+      simp only [renderTypeAlts, List.nil_append]
+      cases a with
+      | nil =>
+        left
+        cases tags with
+        | nil => simp [argsStart, argsGo, typesCode]
+        | cons d t =>
+          have : d ≠ 0 := htags.head
+          simp [argsStart, argsGo, typesCode, this]
+      | cons e a' =>
+        obtain ⟨e0, _⟩ := tagChar_ne (ha e List.mem_cons_self)
+        have hst : argsStart (tags ++ 0 :: rest) ((e :: a') ++ [0]) =
+            argsGo (tags ++ 0 :: rest) ((e :: a') ++ [0]) (tags ++ 0 :: rest) true := by
+          simp [argsStart, e0]
+        rw [hst, argsGo_alt _ _ _ ha]
+        by_cases hl : (e :: a').length ≤ (tags ++ 0 :: rest).length
+        · left
+          simp only [hl, ↓reduceIte, argsGo, Bool.true_and, hpre]
+          simp [typesCode]
+        · right
+          simp only [hl, ↓reduceIte, true_and]
+          exact ⟨_, List.mem_cons_self, by omega⟩
+    | cons b ts'' =>
+      have hts' : ∀ a ∈ b :: ts'', ∀ c ∈ a, tagChar c = true := fun z hz => hts z (List.mem_cons_of_mem _ hz)
+      have ih' := ih (by simp) hts'
+      simp only [renderTypeAlts, List.cons_append] at ih' ⊢
+      -- the first pattern character is not NUL: arg_match starts as true
+      have hst : argsStart (tags ++ 0 :: rest) (a ++ 58 :: (b ++ renderTypeAlts ts'' ++ [0])) =
+          argsGo (tags ++ 0 :: rest) (a ++ 58 :: (b ++ renderTypeAlts ts'' ++ [0])) (tags ++ 0 :: rest) true := by
+        cases a with
+        | nil => simp [argsStart]
+        | cons e a' =>
+          obtain ⟨e0, _⟩ := tagChar_ne (ha e List.mem_cons_self)
+          simp [argsStart, e0]
+      have hassoc : (b ++ renderTypeAlts ts'') ++ [0] = b ++ (renderTypeAlts ts'' ++ [0]) := by simp
+      rw [hst, argsGo_alt _ _ _ ha]
+      by_cases hl : a.length ≤ (tags ++ 0 :: rest).length
+      · simp only [hl, ↓reduceIte, Bool.true_and, hpre, argsGo_colon, hassoc]
+        by_cases hp : a.isPrefixOf tags = true
+        · obtain ⟨x, t, hx, hxz⟩ := drop_head_zero a tags rest htags (List.isPrefixOf_iff_prefix.mp hp)
+          simp only [hp, ↓reduceIte, hx]
+          by_cases hx0 : x = 0
+          · left
+            have : a = tags := hxz.mp hx0
+            simp [hx0, typesCode, this]
+          · have hne : ¬ a = tags := fun h => hx0 (hxz.mpr h)
+            have hbeq : (a == tags) = false := by simp [hne]
+            simp only [hx0, ↓reduceIte, typesCode, hbeq, Bool.false_or]
+            rcases ih' with h | ⟨h1, z, hz, hzl⟩
+            · exact Or.inl h
+            · exact Or.inr ⟨h1, z, List.mem_cons_of_mem _ hz, hzl⟩
+        · have hne : ¬ a = tags := fun h => by
+            subst h
+            exact hp (List.isPrefixOf_iff_prefix.mpr (List.prefix_refl _))
+          have hbeq : (a == tags) = false := by simp [hne]
+          simp only [hp, Bool.false_eq_true, ↓reduceIte, typesCode, hbeq, Bool.false_or]
+          rcases ih' with h | ⟨h1, z, hz, hzl⟩
+          · exact Or.inl h
+          · exact Or.inr ⟨h1, z, List.mem_cons_of_mem _ hz, hzl⟩
+      · right
+        simp only [hl, ↓reduceIte, true_and]
+        exact ⟨a, List.mem_cons_self, by omega⟩
+
+
+theorem typesCode_of_mem {ts : List Bytes} {tags : Bytes} (h : tags ∈ ts) : typesCode ts tags = true := by
+  induction ts with
+  | nil => simp at h
+  | cons a r ih =>
+    cases r with
+    | nil =>
+      simp only [List.mem_cons, List.not_mem_nil, or_false] at h
+      subst h
+      simp only [typesCode]
+      split
+      · next h => simp [h]
+      · exact List.isPrefixOf_iff_prefix.mpr (List.prefix_refl _)
+    | cons b r' =>
+      simp only [typesCode, Bool.or_eq_true, beq_iff_eq]
+      rcases List.mem_cons.mp h with h | h
+      · exact Or.inl h.symm
+      · exact Or.inr (ih h)
+
+theorem typesCode_loose {ts : List Bytes} {tags : Bytes} (hne : ts ≠ []) (h : typesCode ts tags = true) :
+    ∃ a ∈ ts, a <+: tags := by
+  induction ts with
+  | nil => exact absurd rfl hne
+  | cons a r ih =>
+    cases r with
+    | nil =>
+      simp only [typesCode] at h
+      split at h
+      · next ha => subst ha; exact ⟨[], List.mem_cons_self, List.nil_prefix⟩
+      · exact ⟨a, List.mem_cons_self, List.isPrefixOf_iff_prefix.mp h⟩
+    | cons b r' =>
+      simp only [typesCode, Bool.or_eq_true, beq_iff_eq] at h
+      rcases h with h | h
+      · subst h; exact ⟨a, List.mem_cons_self, List.prefix_refl _⟩
+      · obtain ⟨z, hz, hzp⟩ := ih (by simp) h
+        exact ⟨z, List.mem_cons_of_mem _ hz, hzp⟩
+
+/-- the exact behaviour of the type matcher -/
+theorem typesCode_exact {ts : List Bytes} {tags : Bytes} (hne : ts ≠ []) :
+    typesCode ts tags = true ↔
+      tags ∈ ts ∨ ∃ l, ts.getLast? = some l ∧ l ≠ [] ∧ l <+: tags := by
+  induction ts with
+  | nil => exact absurd rfl hne
+  | cons a r ih =>
+    cases r with
+    | nil =>
+      simp only [typesCode, List.mem_cons, List.not_mem_nil, or_false, List.getLast?_singleton,
+        Option.some.injEq, ne_eq, exists_eq_left']
+      by_cases ha : a = []
+      · subst ha; simp
+      · simp only [ha, ↓reduceIte, not_false_eq_true, true_and]
+        constructor
+        · intro h; exact Or.inr (List.isPrefixOf_iff_prefix.mp h)
+        · rintro (h | h)
+          · subst h; exact List.isPrefixOf_iff_prefix.mpr (List.prefix_refl _)
+          · exact List.isPrefixOf_iff_prefix.mpr h
+    | cons b r' =>
+      have := ih (by simp)
+      simp only [typesCode, Bool.or_eq_true, beq_iff_eq, this, List.mem_cons, List.getLast?_cons_cons]
+      constructor
+      · rintro (h | h | h)
+        · exact Or.inl (Or.inl h.symm)
+        · exact Or.inl (Or.inr h)
+        · exact Or.inr h
+      · rintro ((h | h) | h)
+        · exact Or.inl h.symm
+        · exact Or.inr (Or.inl h)
+        · exact Or.inr (Or.inr h)
+
+/-! ### `rtosc_argument_string` on a laid-out message -/
+
+theorem toNul_nulfree (a x : Bytes) (h : NulFree a) : toNul (a ++ 0 :: x) = some (0 :: x) := by
+  induction a with
+  | nil => simp [toNul]
+  | cons c r ih =>
+    have hc : c ≠ 0 := h.head
+    simp [toNul, hc, ih h.tail]
+
+theorem skipZeros_replicate (n : Nat) (c : UInt8) (x : Bytes) (hc : c ≠ 0) :
+    skipZeros (List.replicate n 0 ++ c :: x) = some (c :: x) := by
+  induction n with
+  | zero => simp [skipZeros, hc]
+  | succ n ih => simp [List.replicate_succ, skipZeros, ih]
+
+theorem pad4_eq (s : Bytes) : ∃ k, pad4 s = s ++ 0 :: List.replicate k 0 := by
+  refine ⟨3 - s.length % 4, ?_⟩
+  unfold pad4
+  have : 4 - s.length % 4 = (3 - s.length % 4) + 1 := by omega
+  rw [this, List.replicate_succ]
+
+/-- `rtosc_argument_string` finds the type string of a message laid out by `mkMsg`;
+    behind it come the padding NULs (at least one) and the rest of the buffer. -/
+theorem argString_mkMsg (addr tags rest : Bytes) (ha : NulFree addr) :
+    ∃ k, argString (mkMsg addr tags rest) = some (tags ++ 0 :: (List.replicate k 0 ++ rest)) := by
+  obtain ⟨k1, h1⟩ := pad4_eq addr
+  obtain ⟨k2, h2⟩ := pad4_eq (44 :: tags)
+  refine ⟨k2, ?_⟩
+  unfold mkMsg
+  rw [h1, h2]
+  cases addr with
+  | nil =>
+    -- "\0\0\0\0,…": the first byte is skipped unseen
+    have hk : k1 = 3 := by
+      have := congrArg List.length h1
+      simp [pad4] at this
+      omega
+    subst hk
+    simp [argString, toNul, skipZeros, List.replicate]
+  | cons c a' =>
+    have hn := toNul_nulfree a' (List.replicate k1 0 ++ (44 :: tags ++ 0 :: List.replicate k2 0) ++ rest) ha.tail
+    simp only [List.cons_append, List.append_assoc, argString] at hn ⊢
+    rw [hn]
+    have := skipZeros_replicate k1 44 (tags ++ 0 :: (List.replicate k2 0 ++ rest)) (by decide)
+    simp only [this]
+
+/-! ### the copies in ports.cpp -/
+
+theorem argWhile_argsGo (args0 : Bytes) : ∀ (p a : Bytes) (am : Bool),
+    match argWhile p a am with
+    | none => argsGo args0 p a am = none
+    | some (p', a', am') =>
+      argsGo args0 p a am = argsGo args0 p' a' am' ∧ p'.length ≤ p.length ∧
+      ∃ e r, p' = e :: r ∧ (e = 0 ∨ e = 58) := by
+  intro p
+  induction p with
+  | nil => intro a am; simp [argWhile, argsGo]
+  | cons c r ih =>
+    intro a am
+    by_cases hc : c ≠ 0 ∧ c ≠ 58
+    · cases a with
+      | nil => simp [argWhile, argsGo, hc]
+      | cons x ar =>
+        have := ih ar (am && c == x)
+        simp only [argWhile, hc, ne_eq, not_false_eq_true, and_self, ↓reduceIte, argsGo]
+        split
+        · next h => simpa [h] using this
+        · next p' a' am' h =>
+          simp only [h] at this
+          exact ⟨this.1, by simp only [List.length_cons]; omega, this.2.2⟩
+    · have hc' : c = 0 ∨ c = 58 := by
+        by_cases h0 : c = 0
+        · exact Or.inl h0
+        · by_cases h58 : c = 58
+          · exact Or.inr h58
+          · exact absurd ⟨h0, h58⟩ hc
+      simp only [argWhile, hc, ↓reduceIte]
+      exact ⟨trivial, Nat.le_refl _, c, r, rfl, hc'⟩
+
+/-- `arg_matcher` (ports.cpp) computes what `rtosc_match_args` (dispatch.c) computes -/
+theorem argMatcherFuel_eq : ∀ (f : Nat) (pattern a0 : Bytes), pattern.length < f →
+    argMatcherFuel f pattern a0 = args pattern a0 := by
+  intro f
+  induction f with
+  | zero => intro p a0 h; omega
+  | succ f ih =>
+    intro pattern a0 hf
+    cases pattern with
+    | nil => simp [argMatcherFuel, args]
+    | cons c p =>
+      by_cases hc : c = 58
+      · subst hc
+        rw [args_colon]
+        simp only [argMatcherFuel, ne_eq, not_true_eq_false, ↓reduceIte]
+        cases p with
+        | nil => simp [argsStart]
+        | cons e p' =>
+          -- the initial value of arg_match
+          have hinit : ∀ am0 : Bool,
+              (match argWhile (e :: p') a0 am0 with
+               | none => none
+               | some (p'', a', am) =>
+                 match p'' with
+                 | [] => none
+                 | e' :: _ =>
+                   if e' = 58 then
+                     if am then
+                       match a' with
+                       | [] => none
+                       | x :: _ => if x = 0 then some true else argMatcherFuel f p'' a0
+                     else argMatcherFuel f p'' a0
+                   else some am) = argsGo a0 (e :: p') a0 am0 := by
+            intro am0
+            have hw := argWhile_argsGo a0 (e :: p') a0 am0
+            split
+            · next h => simp only [h] at hw; exact hw.symm
+            · next p'' a' am h =>
+              simp only [h] at hw
+              obtain ⟨h1, h2, e', r', rfl, he'⟩ := hw
+              rw [h1]
+              have hlen : (e' :: r').length < f := by
+                simp only [List.length_cons] at hf h2 ⊢; omega
+              rcases he' with rfl | rfl
+              · simp [argsGo]
+              · simp only [↓reduceIte, argsGo_colon, ih _ a0 hlen, args_colon]
+                all_goals rfl
+          by_cases he : e = 0
+          · subst he
+            cases a0 with
+            | nil => simp [argsStart]
+            | cons x ar =>
+              have := hinit (0 == x)
+              simp only [argsStart, ne_eq, not_true_eq_false, ↓reduceIte]
+              have hx : ((0:UInt8) == x) = decide (x = 0) := by
+                by_cases h : x = 0
+                · subst h; rfl
+                · have h' : ¬ (0:UInt8) = x := fun h' => h h'.symm
+                  simp [h, h']
+              rw [← hx]
+              exact this
+          · have := hinit true
+            simp only [ne_eq, he, not_false_eq_true, ↓reduceIte, argsStart]
+            exact this
+      · simp [argMatcherFuel, args, hc]
+
+theorem portMatcherFuel_eq : ∀ (f : Nat) (pattern msg : Bytes),
+    portMatcherFuel f pattern msg =
+      match f, pattern with
+      | 0, _ => none
+      | _, [] => none
+      | f' + 1, c :: p =>
+        if c ≠ 58 then some true
+        else match argString msg with
+          | none => none
+          | some a => argMatcherFuel (f' + 1) (c :: p) a := by
+  intro f
+  induction f with
+  | zero => intro p m; simp [portMatcherFuel]
+  | succ f ih =>
+    intro pattern msg
+    cases pattern with
+    | nil => simp [portMatcherFuel]
+    | cons c p =>
+      by_cases hc : c = 58
+      · subst hc
+        simp only [portMatcherFuel, ne_eq, not_true_eq_false, ↓reduceIte, argMatcherFuel]
+        cases hs : argString msg with
+        | none => rfl
+        | some a =>
+          simp only
+          -- the recursive calls are on patterns that start with ':' again
+          have hrec : ∀ (e : UInt8) (r : Bytes), e = 58 →
+              portMatcherFuel f (e :: r) msg = argMatcherFuel f (e :: r) a := by
+            intro e r he
+            subst he
+            rw [ih]
+            cases f with
+            | zero => simp [argMatcherFuel]
+            | succ f' => simp [hs]
+          cases p with
+          | nil => rfl
+          | cons e p' =>
+            have hmain : ∀ am0 : Bool,
+                (match argWhile (e :: p') a am0 with
+                 | none => none
+                 | some (p'', a', am) =>
+                   match p'' with
+                   | [] => none
+                   | e' :: _ =>
+                     if e' = 58 then
+                       if am then
+                         match a' with
+                         | [] => none
+                         | x :: _ => if x = 0 then some true else portMatcherFuel f p'' msg
+                       else portMatcherFuel f p'' msg
+                     else some am) =
+                (match argWhile (e :: p') a am0 with
+                 | none => none
+                 | some (p'', a', am) =>
+                   match p'' with
+                   | [] => none
+                   | e' :: _ =>
+                     if e' = 58 then
+                       if am then
+                         match a' with
+                         | [] => none
+                         | x :: _ => if x = 0 then some true else argMatcherFuel f p'' a
+                       else argMatcherFuel f p'' a
+                     else some am) := by
+              intro am0
+              cases argWhile (e :: p') a am0 with
+              | none => rfl
+              | some t =>
+                obtain ⟨p'', a', am⟩ := t
+                cases p'' with
+                | nil => rfl
+                | cons e' r' =>
+                  by_cases he' : e' = 58
+                  · simp only [he', ↓reduceIte, hrec 58 r' rfl]
+                  · simp only [he', ↓reduceIte]
+            by_cases he : e = 0
+            · subst he
+              cases a with
+              | nil => rfl
+              | cons x ar =>
+                simp only [not_true_eq_false, ↓reduceIte]
+                exact hmain (0 == x)
+            · simp only [he, not_false_eq_true, ↓reduceIte]
+              exact hmain true
+      · simp [portMatcherFuel, hc]
+
+
+/-! ## Part 6: rendered patterns -/
+
+theorem typesTail_head (ty : Option (List Bytes)) :
+    ∃ c x, renderTypes ty ++ [0] = c :: x ∧ (c = 0 ∨ c = 58) := by
+  cases ty with
+  | none => exact ⟨0, [], rfl, Or.inl rfl⟩
+  | some ts =>
+    cases ts with
+    | nil => exact ⟨0, [], rfl, Or.inl rfl⟩
+    | cons a r => exact ⟨58, a ++ renderTypeAlts r ++ [0], by simp [renderTypes, renderTypeAlts], Or.inr rfl⟩
+
+theorem cstr_eq (p : Pat) :
+    p.cstr = renderSegs p.segs ++ ((if p.sub then [47] else []) ++ (renderTypes p.types ++ [0])) := by
+  simp [Pat.cstr, Pat.render, Pat.tail]
+
+theorem wf0_segs {p : Pat} (h : p.WF0) : segsWf p.sub p.segs = true := by
+  simp only [Pat.WF0, Pat.wf0, Bool.and_eq_true] at h; exact h.1
+
+theorem wf0_types {p : Pat} (h : p.WF0) : typesWf p.types = true := by
+  simp only [Pat.WF0, Pat.wf0, Bool.and_eq_true] at h; exact h.2
+
+theorem wf_wf0 {p : Pat} (h : p.WF) : p.WF0 := by
+  simp only [Pat.WF, Pat.wf, Bool.and_eq_true] at h; exact h.1
+
+theorem wf_prefixFree {p : Pat} (h : p.WF) : segsPrefixFree p.segs = true := by
+  simp only [Pat.WF, Pat.wf, Bool.and_eq_true] at h; exact h.2
+
+/-- `rtosc_match_path` on a pattern of the documented form -/
+theorem path_rendered {p : Pat} (hwf : p.WF0) {addr : Bytes} (ex : Bytes)
+    (ha : NulFree addr) (hb : IdxBounded addr) :
+    path p.cstr (addr ++ 0 :: ex) =
+      match greedy p.segs p.sub addr with
+      | none => .fail
+      | some t => .ok (renderTypes p.types ++ [0], t ++ 0 :: ex) := by
+  obtain ⟨c, x, hcx, hc⟩ := typesTail_head p.types
+  rw [cstr_eq, hcx]
+  exact path_greedy p.sub c x hc p.segs (wf0_segs hwf) addr ex ha hb
+
+theorem mkMsg_shape (addr tags rest : Bytes) : ∃ ex, mkMsg addr tags rest = addr ++ 0 :: ex := by
+  obtain ⟨k, hk⟩ := pad4_eq addr
+  exact ⟨List.replicate k 0 ++ pad4 (44 :: tags) ++ rest, by simp [mkMsg, hk]⟩
+
+/-- `rtosc_match` on a pattern of the documented form and a laid-out message -/
+theorem full_rendered {p : Pat} (hwf : p.WF0) {addr tags : Bytes} (rest : Bytes)
+    (ha : NulFree addr) (hb : IdxBounded addr) (ht : NulFree tags) :
+    ∃ ex k, mkMsg addr tags rest = addr ++ 0 :: ex ∧
+    match greedy p.segs p.sub addr with
+    | none => full p.cstr (mkMsg addr tags rest) = some (false, none)
+    | some t =>
+      match p.types with
+      | none => full p.cstr (mkMsg addr tags rest) = some (true, some (t ++ 0 :: ex))
+      | some ts =>
+        full p.cstr (mkMsg addr tags rest) = some (typesCode ts tags, some (t ++ 0 :: ex)) ∨
+        (full p.cstr (mkMsg addr tags rest) = none ∧
+          ∃ a ∈ ts, (tags ++ 0 :: (List.replicate k 0 ++ rest)).length < a.length) := by
+  obtain ⟨ex, hex⟩ := mkMsg_shape addr tags rest
+  obtain ⟨k, hk⟩ := argString_mkMsg addr tags rest ha
+  refine ⟨ex, k, hex, ?_⟩
+  have hp := path_rendered hwf ex ha hb
+  rw [← hex] at hp
+  cases hg : greedy p.segs p.sub addr with
+  | none =>
+    simp only [hg] at hp
+    simp [full, hp]
+  | some t =>
+    simp only [hg] at hp
+    cases hty : p.types with
+    | none =>
+      simp only [hty, renderTypes, List.nil_append] at hp
+      simp [full, hp]
+    | some ts =>
+      have htw := wf0_types hwf
+      simp only [hty, typesWf, Bool.and_eq_true, Bool.not_eq_eq_eq_not, Bool.not_true,
+        List.isEmpty_eq_false_iff, List.all_eq_true] at htw
+      obtain ⟨a, ts', rfl⟩ := List.exists_cons_of_ne_nil htw.1
+      simp only [hty, renderTypes, renderTypeAlts, List.cons_append, List.append_assoc] at hp
+      have hargs := argsStart_types tags (List.replicate k 0 ++ rest) ht (a :: ts') htw.1 htw.2
+      simp only at hargs
+      simp only [full, hp, ↓reduceIte, hk, args_colon]
+      rcases hargs with h | ⟨h, hz⟩
+      · left; simp [h]
+      · right; exact ⟨by simp [h], hz⟩
+
+
+theorem isDigit_val {c : UInt8} (h : isDigit c = true) : c.toNat - 48 ≤ 9 := by
+  simp only [isDigit, Bool.and_eq_true, decide_eq_true_eq] at h
+  have h2 : c.toNat ≤ 57 := by
+    have := UInt8.le_iff_toNat_le.mp h.2
+    simpa using this
+  omega
+
+theorem foldl_dec_lt (run : Bytes) (hr : ∀ c ∈ run, isDigit c = true) :
+    ∀ acc : Nat, run.foldl (fun acc c => acc * 10 + (c.toNat - 48)) acc < (acc + 1) * 10 ^ run.length := by
+  induction run with
+  | nil => intro acc; simp
+  | cons c r ih =>
+    intro acc
+    have hc := isDigit_val (hr c List.mem_cons_self)
+    have := ih (fun x hx => hr x (List.mem_cons_of_mem _ hx)) (acc * 10 + (c.toNat - 48))
+    simp only [List.foldl_cons, List.length_cons]
+    have h2 : (acc * 10 + (c.toNat - 48) + 1) * 10 ^ r.length ≤ ((acc + 1) * 10) * 10 ^ r.length :=
+      Nat.mul_le_mul_right _ (by omega)
+    calc _ < _ := this
+      _ ≤ _ := h2
+      _ = _ := by rw [Nat.pow_succ, Nat.mul_assoc, Nat.mul_comm 10]
+
+theorem decVal_lt_pow {run : Bytes} (hr : ∀ c ∈ run, isDigit c = true) : decVal run < 10 ^ run.length := by
+  have := foldl_dec_lt run hr 0
+  simpa [decVal] using this
+
+/-- an address of at most nine characters only carries indices below 2^31 -/
+theorem IdxBounded_of_length {a : Bytes} (h : a.length ≤ 9) : IdxBounded a := by
+  intro pre run post he hr
+  have hl : run.length ≤ 9 := by
+    have := congrArg List.length he
+    simp only [List.length_append] at this
+    omega
+  have h1 := decVal_lt_pow hr
+  have h2 : 10 ^ run.length ≤ 10 ^ 9 := Nat.pow_le_pow_right (by decide) hl
+  have h3 : (10:Nat) ^ 9 < 2 ^ 31 := by decide
+  omega
+
+
+theorem idxBounded_of_check {a : Bytes} (h : idxBoundedCheck a = true) : IdxBounded a := by
+  intro pre run post he hr
+  simp only [idxBoundedCheck, List.all_eq_true, List.mem_range, Bool.or_eq_true,
+    Bool.not_eq_eq_eq_not, Bool.not_true, decide_eq_true_eq] at h
+  have hl := congrArg List.length he
+  simp only [List.length_append] at hl
+  have := h pre.length (by omega) run.length (by omega)
+  have hrun : (a.drop pre.length).take run.length = run := by
+    rw [he, List.append_assoc, List.drop_left, List.take_left]
+  rw [hrun] at this
+  rcases this with h1 | h1
+  · have : run.all isDigit = true := List.all_eq_true.mpr hr
+    rw [this] at h1; cases h1
+  · exact h1
+
+
 end Rtosc.Match
